@@ -57,7 +57,28 @@ func runC18(x *Ctx) {
 	// io.EOF - a dropped connection - for the end of the container)
 	if rc := x.fn("C18.R2", ctnPkg+"readCar"); rc != nil {
 		nI, badI := 0, ""
-		for _, lit := range rc.AnonFuncs {
+		// the iterator is wherever readBlock is called from: the literal of today's tree, or a named function or method
+		// the literal was moved to
+		var iterators []*ssa.Function
+		for _, g := range x.P.ModuleFuncs() {
+			if x.P.PkgPathOf(g) != x.P.PkgPathOf(rc) || strings.HasSuffix(x.P.PkgPathOf(g), "_test") {
+				continue
+			}
+			calls := false
+			for _, b := range g.Blocks {
+				for _, in := range b.Instrs {
+					if c, isC := in.(ssa.CallInstruction); isC {
+						if sc := c.Common().StaticCallee(); sc != nil && load.ShortName(sc) == ctnPkg+"readBlock" {
+							calls = true
+						}
+					}
+				}
+			}
+			if calls {
+				iterators = append(iterators, g)
+			}
+		}
+		for _, lit := range iterators {
 			for _, p := range x.pathsQuiet(lit) {
 				if p.End != paths.EndReturn {
 					continue
@@ -83,6 +104,11 @@ func runC18(x *Ctx) {
 								handed = true
 							}
 						}
+					}
+				}
+				for _, r := range p.Results() {
+					if r != nil && r.String() == e {
+						handed = true
 					}
 				}
 				nI++
